@@ -384,6 +384,11 @@ fn gen_common(src: &mut Src, o: &GdsGenOpts) -> MCommon {
     // (now and then a list long enough to outgrow any small inline buffer)
     let np = if o.large_records && src.prob(1, 60) { src.usize_in(9, 40) } else { src.weighted(&[6, 2, 1, 1]) };
     let mut props: Vec<(i16, String)> = (0..np).map(|_| (gen_i16(src), gen_string(src, o))).collect();
+    // (a value straddling the 16-bit record limit, on whatever element this is: 65530 bytes fit, 65531 do not)
+    if o.oversize && src.prob(1, 500) {
+        let n = 65529 + src.usize_in(0, 3);
+        props.push((gen_i16(src), "p".repeat(n)));
+    }
     // the same attribute number twice, the same value twice
     if props.len() >= 2 && src.prob(1, 4) {
         if src.bool() {
